@@ -26,7 +26,8 @@ NAMES = ["a", "b", "c", "d"]
 
 def rule(tier):
     return ("all 2x2 matrices over {-1,0,1,2}%s, all 3x3 companion matrices with coefficients in {-1,0,1} (thorough: {-1,0,1,2}), all 3x3 and 4x4 "
-            "0/1 matrices with at most one 1 per row (every nilpotent-tail + cycle shape)%s; x 2 initial vectors x 2 "
+            "0/1 matrices with at most one 1 per row (every nilpotent-tail + cycle shape), all 3x3 and 4x4 bidiagonal chains with diagonal in {0,1} "
+            "(thorough {0,1,2}) and superdiagonal in {0,1}%s; x 2 initial vectors x 2 "
             "inhomogeneous parts x {default, forced cyclic} (+ numeric root options where the spectrum is not rational); "
             "non-trivial = matrix whose sequence is not constant") % (
         "" if tier == "quick" else " and {1/2}", "" if tier == "quick" else ", all 3x3 over {-1,0,1} up to simultaneous permutation, one parametric entry p in 2x2")
@@ -55,6 +56,18 @@ def _mats(tier):
         for r in ("2", "-3", "1/2"):
             out.append([["0", "1", "0", "0"], ["0", "0", "1", "0"], [cub[0], cub[1], cub[2], "0"], ["0", "0", "0", r]])
             out.append([[r, "0", "0", "0"], ["0", "0", "1", "0"], ["0", "0", "0", "1"], ["0", cub[0], cub[1], cub[2]]])
+    # bidiagonal chains: every mix of delay lines (diagonal 0) and accumulators (diagonal 1, thorough also 2) feeding one another
+    # (x_i' = d_i x_i + s_i x_{i+1}); together with the inhomogeneous last component these are the "summing" shapes of the
+    # acyclic solver (start index of an accumulator behind two delays, etc.)
+    for dim in (3, 4):
+        for diag in itertools.product(["0", "1"] if tier == "quick" else ["0", "1", "2"], repeat=dim):
+            for sup in itertools.product(["0", "1"], repeat=dim - 1):
+                m = [["0"] * dim for _ in range(dim)]
+                for i in range(dim):
+                    m[i][i] = diag[i]
+                    if i + 1 < dim:
+                        m[i][i + 1] = sup[i]
+                out.append(m)
     if tier != "quick":
         seen = set()
         for e in itertools.product(["-1", "0", "1"], repeat=9):
